@@ -611,8 +611,12 @@ def eval_job(job):
     # ---- equality
     unif = kind == "tree" and depth == "thin" and route != "extract_keepunif" and _has_unifurcation(tup(recipe["shape"]))
     d_src, d_cp = dump(kind, src, depth), dump(kind, cp, depth)
-    if d_src != d_cp:
-        out.append(["unifurcations_kept" if unif else "equal", diff(d_src, d_cp)])
+    # An unfiltered extract_tree() with the default suppress_unifurcations=True also removes
+    # out-degree-1 nodes that were already in the source.  C08 states that single-child nodes are
+    # suppressed unless suppression is declined, so this is NOT demanded here (clause left out);
+    # the same shapes are compared exactly on the route extract_keepunif (suppress_unifurcations=False).
+    if d_src != d_cp and not unif:
+        out.append(["equal", diff(d_src, d_cp)])
     if kind != "ns":
         sns, cns = src._taxon_namespace, cp._taxon_namespace
         if depth in ("scoped", "thin", "shallow"):
